@@ -999,6 +999,36 @@ class StructShim:
         return real_struct.unpack_from(fmt, buffer, offset)
 
 
+class StructObj:
+    """stand-in for a compiled struct.Struct (also for instances the library created at import time)"""
+    def __init__(self, fmt, shim=None):
+        self.format = fmt if isinstance(fmt, builtins.str) else fmt.decode()
+        self.size = real_struct.calcsize(self.format)
+        self._shim = shim or StructShim
+
+    def unpack(self, data):
+        return self._shim.unpack(self.format, data)
+
+    def unpack_from(self, buffer, offset=0):
+        return self._shim.unpack_from(self.format, buffer, offset)
+
+    def pack(self, *a):
+        return real_struct.pack(self.format, *a)
+
+    def iter_unpack(self, data):
+        raise EngineLimit("Struct.iter_unpack")
+
+
+StructShim.Struct = StructObj
+
+
+def rehost_struct_objects(mod, setter, shim=None):
+    """replace struct.Struct instances held in a library module's globals by shim objects"""
+    for name, val in list(vars(mod).items()):
+        if isinstance(val, real_struct.Struct):
+            setter(mod, name, StructObj(val.format, shim))
+
+
 class WarnShim:
     """`warnings` stand-in for library modules: records instead of emitting (messages contain proxies)."""
     def __getattr__(self, name):
@@ -1100,8 +1130,9 @@ def install(width=128):
         _set(mod, "bytes", BytesShim)
         if hasattr(mod, "warnings"):
             _set(mod, "warnings", warn)
-    for mod in (packets, encodings, comparisons, calibrators, parameter_types, definitions, containers, parameters):
+    for mod in (packets, encodings, comparisons, calibrators, parameter_types, definitions, containers, parameters, common):
         _set(mod, "struct", StructShim)
+        rehost_struct_objects(mod, _set)
     P = common._Parameter
     lib.real_classes = {n: getattr(common, n) for n in ("IntParameter", "BoolParameter", "FloatParameter", "StrParameter", "BinaryParameter")}
     bases = dict(IntParameter=SymInt, BoolParameter=SymInt, FloatParameter=SymReal, StrParameter=SymStr, BinaryParameter=SymBytes)
